@@ -1,4 +1,5 @@
-(* C05.  The Q / A / N / NS / X / E lines are handled in c06.ml (they share the C06 encodings; it is
+(* C05.  The R (result channel) and W (flat WHERE chains) lines are handled at the end of this file.
+   The Q / A / N / NS / X / E lines are handled in c06.ml (they share the C06 encodings; it is
    linked before this file).  Here: the nested-path lines, judged by the extracted resolver of
    coq/Model/NestedPath.v.
    P  <hexpath> # <value> # <ParseFieldPath: ok n parts | err | nil | panic> # <GetNestedField: found v | missing | panic>
@@ -183,10 +184,114 @@ let handle_nq (rest : string list) : string =
        | _ -> "bad row")
   | _ -> "bad line"
 
+(* ---- R: the result channel under backpressure (Model/ResultChan.v, Spec/ResultChanSpec.v) ----
+   R <mode> <hexsql> # <query> # <n> <dropped> <cap> <nsink> # <script: e<k> r<j> .. d | free>
+     # row (x n) # sink result (x nsink) # B <phase> <batch> row k=v.. | B <phase> <batch> empty  (what was read from the channel) *)
+let join_hash (secs : string list list) : string list = List.concat (List.map (fun s -> "#" :: s) secs)
+let rec take_n k l = if k = 0 then ([], l) else (match l with x :: r -> let (a, b) = take_n (k - 1) r in (x :: a, b) | [] -> failwith "short R line")
+let zid_of_cells (kvs : string list) : z option =
+  match List.assoc_opt id_key (cells_of kvs) with
+  | Some s when String.length s > 1 && s.[0] = 'n' ->
+      let q = q_of_string (String.sub s 1 (String.length s - 1)) in
+      (match q.qden with XH -> Some q.qnum | _ -> None)
+  | _ -> None
+let show_zs (l : z list) : string =
+  let n = List.length l in
+  let rec firstn k = function [] -> [] | x :: r -> if k = 0 then [] else x :: firstn (k - 1) r in
+  "[" ^ String.concat " " (List.map show_z (firstn 24 l)) ^ (if n > 24 then " .. " ^ string_of_int n ^ " ids" else "") ^ "]"
+let show_batches (l : (int * z list) list) : string =
+  let rec firstn k = function [] -> [] | x :: r -> if k = 0 then [] else x :: firstn (k - 1) r in
+  String.concat " " (List.map (fun (ph, ids) -> string_of_int ph ^ ":" ^ String.concat "," (List.map show_z ids)) (firstn 24 l))
+  ^ (if List.length l > 24 then " .. " ^ string_of_int (List.length l) ^ " batches" else "")
+
+let handle05_r (mode : string) (rest : string list) : string =
+  match Win.split_hash rest with
+  | _ :: qenc :: [ n; dropped; cap; nsink ] :: script :: secs ->
+      let n = int_of_string n and nsink = int_of_string nsink and capi = int_of_string cap in
+      let (rowsecs, rest1) = take_n n secs in
+      let (sinksecs, chansecs) = take_n nsink rest1 in
+      (* 1. the synchronous sink got the model's results, in emission order (the X clauses) *)
+      let xv = handle05_x mode (join_hash ([ qenc; [ string_of_int n; dropped; cap; "0"; "0" ] ] @ rowsecs @ sinksecs)) in
+      if xv <> "ok" && xv <> "ok nt" then xv else
+      let sink = List.map (fun sec -> match sec with
+        | "row" :: kvs -> (match zid_of_cells kvs with Some z -> (z, sec) | None -> failwith "sink result without id")
+        | _ -> failwith "bad sink section") sinksecs in
+      let sent = List.map fst sink in
+      (* what the reader got: (phase, batch number, id, result) *)
+      let chan = List.filter_map (fun sec -> match sec with
+        | "B" :: ph :: bi :: "empty" :: [] -> Some (int_of_string ph, int_of_string bi, None, [])
+        | "B" :: ph :: bi :: ("row" :: kvs as res) -> Some (int_of_string ph, int_of_string bi, zid_of_cells kvs, res)
+        | _ -> failwith "bad channel section") chansecs in
+      if List.exists (fun (_, _, id, res) -> id = None && res <> []) chan then "chk result_channel_row " ^ mode ^ " the channel delivered a row without the id column"
+      else
+      let seen = List.filter_map (fun (_, _, id, _) -> id) chan in
+      let tag = mode ^ " cap=" ^ cap ^ " results=" ^ string_of_int nsink in
+      (match rc_check sent seen with
+       | RCUnknown x -> "chk result_channel_order " ^ tag ^ " the channel delivered id=" ^ show_z x ^ ", which is no result the sink got; read=" ^ show_zs seen
+       | RCTwice x -> "chk result_channel_order " ^ tag ^ " id=" ^ show_z x ^ " was read from the channel twice; read=" ^ show_zs seen
+       | RCOrder (x, p) -> "chk result_channel_order " ^ tag ^ " id=" ^ show_z x ^ " was read from the channel after id=" ^ show_z p
+                           ^ " (emitted later, or the same result again); read=" ^ show_zs seen
+       | RCOk ->
+           (* 2. every row read is the result the sink got for that id *)
+           let badrow = List.find_opt (fun (_, _, id, res) -> match id with
+             | Some z -> (match List.assoc_opt z sink with Some sec -> sec <> res | None -> true)
+             | None -> false) chan in
+           (match badrow with
+            | Some (_, _, Some z, res) -> "chk result_channel_row " ^ tag ^ " id=" ^ show_z z ^ " channel=" ^ String.concat " " res
+                                          ^ " sink=" ^ (match List.assoc_opt z sink with Some sec -> String.concat " " sec | None -> "none")
+            | Some _ -> "bad line"
+            | None ->
+                if mode = "quiet" && not (rc_suffix (Util.nat_of_int capi) sent seen) then
+                  "chk result_channel_eviction " ^ tag ^ " nobody read while the rows were emitted: the channel must hold the newest "
+                  ^ string_of_int (min capi nsink) ^ " results; read=" ^ show_zs seen
+                else if mode = "free" then (if seen <> [] then "ok nt" else "ok")
+                else begin
+                  (* 3. the schedule replayed on the model: the batches read in every phase *)
+                  let row_ids = List.map (fun sec -> match xlookup (parse_row sec) id_key with
+                    | Some (VNum q) -> q.qnum | _ -> failwith "row without id") rowsecs in
+                  let is_sent z = List.mem z sent in
+                  let st = ref rc_init and left = ref row_ids and model = ref [] in
+                  let recv ph = (match (!st).rc_chan with
+                    | [] -> false
+                    | b :: _ -> st := rc_step false (Util.nat_of_int capi) !st RRecv; model := (ph, b) :: !model; true) in
+                  List.iteri (fun ph tok ->
+                    let k () = int_of_string (String.sub tok 1 (String.length tok - 1)) in
+                    match tok.[0] with
+                    | 'e' -> let (now, later) = take_n (k ()) !left in
+                             left := later;
+                             List.iter (fun z -> if is_sent z then st := rc_step false (Util.nat_of_int capi) !st (RSend [ z ])) now
+                    | 'r' -> for _ = 1 to k () do ignore (recv ph) done
+                    | 'd' -> while recv ph do () done
+                    | _ -> failwith "bad script") script;
+                  let model = List.rev !model in
+                  (* observed batches, in the order read *)
+                  let obs = List.fold_left (fun acc (ph, bi, id, _) ->
+                    match acc with
+                    | (ph', bi', ids) :: r when bi' = bi && ph' = ph -> (ph, bi, ids @ (match id with Some z -> [ z ] | None -> [])) :: r
+                    | _ -> (ph, bi, (match id with Some z -> [ z ] | None -> [])) :: acc) [] chan in
+                  let obs = List.rev_map (fun (ph, _, ids) -> (ph, ids)) obs in
+                  if obs = model then (if seen <> [] && xv = "ok nt" then "ok nt" else "ok")
+                  else "diff result_channel " ^ tag ^ " model=" ^ show_batches model ^ " impl=" ^ show_batches obs
+                end))
+  | _ -> "bad line"
+
+(* W <hexsql flat> <hexsql parenthesised> # <query (flat)> # <row> # <flat result> # <parenthesised result> *)
+let handle05_w (hf : string) (rest : string list) : string =
+  match Win.split_hash rest with
+  | [ _; qenc; rowt; oflat; opar ] ->
+      if oflat <> opar then
+        let m = (match direct (p_query qenc) (parse_row rowt) with
+          | DNone -> "none" | DRow r -> "row " ^ show_row r | DUnm -> "unmodelled") in
+        "chk where_spelling_dependent flat=" ^ String.concat " " oflat ^ " parenthesised=" ^ String.concat " " opar ^ " model=" ^ m
+      else handle05 ("Q" :: hf :: join_hash [ qenc; rowt; oflat ])
+  | _ -> "bad line"
+
 let handle05c (toks : string list) : string =
   match toks with
   | "P" :: rest -> handle_p rest
   | "NQ" :: rest -> handle_nq rest
+  | "R" :: mode :: _ :: rest -> handle05_r mode rest
+  | "W" :: hf :: _ :: rest -> handle05_w hf rest
   | _ -> handle05 toks
 
 let () = Registry.register "C05" handle05c
